@@ -1200,6 +1200,12 @@ pub struct HeldWriter {
 
 impl HeldWriter {
     pub fn start(w: &mut World, k: usize) -> HeldWriter {
+        Self::start_batch(w, k, 1, 0)
+    }
+
+    /// a batch of `n` items (one `extend`, all indices reserved at once) whose writer is parked inside the fill callback
+    /// of its `block_at`-th item: the items before it are published, that one and all later ones are not
+    pub fn start_batch(w: &mut World, k: usize, n: u32, block_at: u32) -> HeldWriter {
         let gate = Arc::new((Mutex::new(false), Condvar::new()));
         let in_flight = Arc::new(AtomicBool::new(false));
         let stream = w.handles[k].stream;
@@ -1208,25 +1214,35 @@ impl HeldWriter {
         let inj = w.handles[k].inj.clone();
         stream_handles_add(&w.reg, stream, 1);
         let reg = w.reg.clone();
-        let id = w.alloc_ids(1);
+        let n = n.max(1);
+        let block_at = block_at.min(n - 1);
+        let id = w.alloc_ids(n);
         let (g2, f2) = (gate.clone(), in_flight.clone());
         let published = Arc::new(AtomicBool::new(false));
         let pub2 = published.clone();
         let (invoked, completed) = (w.invoked.clone(), w.completed.clone());
-        *invoked.lock().unwrap().entry(stream).or_insert(0) += 1;
+        *invoked.lock().unwrap().entry(stream).or_insert(0) += n;
         let thread = std::thread::spawn(move || {
-            inj.push(Payload::new(id, stream, &reg), |p, cols| {
-                f2.store(true, Ordering::SeqCst);
-                let (m, cv) = &*g2;
-                let mut open = m.lock().unwrap();
-                let deadline = Instant::now() + Duration::from_secs(20);
-                while !*open && Instant::now() < deadline {
-                    let (g, _) = cv.wait_timeout(open, Duration::from_millis(100)).unwrap();
-                    open = g;
+            let park = |p: &Payload, cols: &mut [Utf32String]| {
+                if p.id == id + block_at {
+                    f2.store(true, Ordering::SeqCst);
+                    let (m, cv) = &*g2;
+                    let mut open = m.lock().unwrap();
+                    let deadline = Instant::now() + Duration::from_secs(20);
+                    while !*open && Instant::now() < deadline {
+                        let (g, _) = cv.wait_timeout(open, Duration::from_millis(100)).unwrap();
+                        open = g;
+                    }
                 }
                 fill_cols(p.id, cols);
-            });
-            *completed.lock().unwrap().entry(stream).or_insert(0) += 1;
+            };
+            if n == 1 {
+                inj.push(Payload::new(id, stream, &reg), |p, cols| park(p, cols));
+            } else {
+                let items: Vec<Payload> = (id..id + n).map(|i| Payload::new(i, stream, &reg)).collect();
+                inj.extend(items.into_iter(), |p, cols| park(p, cols));
+            }
+            *completed.lock().unwrap().entry(stream).or_insert(0) += n;
             pub2.store(true, Ordering::SeqCst);
             stream_handles_add(&reg, stream, -1);
             drop(inj);
@@ -1237,7 +1253,11 @@ impl HeldWriter {
         while !in_flight.load(Ordering::SeqCst) && Instant::now() < deadline {
             std::thread::sleep(Duration::from_micros(100));
         }
-        w.note(format!("hold writer (id {id}) in flight via handle {k}"));
+        if n == 1 {
+            w.note(format!("hold writer (id {id}) in flight via handle {k}"));
+        } else {
+            w.note(format!("hold a batch of {n} (ids {id}..) parked at its item {block_at} via handle {k}"));
+        }
         HeldWriter {
             gate,
             thread: Some(thread),
@@ -1394,7 +1414,14 @@ pub fn run_random(opts: &Opts, rep: &mut Report, props: &[&str]) {
                 }
                 24..=31 if !w.handles.is_empty() && held.len() < 4 => {
                     let k = rng.below(w.handles.len());
-                    let hw = HeldWriter::start(&mut w, k);
+                    let hw = if rng.chance(1, 3) {
+                        let n = *rng.pick(&[2u32, 5, 33, 40, 70, 130]);
+                        let at = if rng.coin() { 0 } else { rng.below(n as usize) as u32 };
+                        rep.count("held-batches-started");
+                        HeldWriter::start_batch(&mut w, k, n, at)
+                    } else {
+                        HeldWriter::start(&mut w, k)
+                    };
                     held.push(hw);
                     rep.count("held-writers-started");
                     label = "hold".into();
